@@ -172,6 +172,8 @@ func checkC08(c *Ctx) {
 	c.rule("PASS-overlay", "the overlay the merged iterator reads is recorded with every change of the working root, cancelled consistently, and kept until the commit succeeded", 6)
 	checkOverlayMaintenance(c, "PASS-overlay")
 	checkEmptyValueLegal(c)
+	checkCloneCopiesDecisionFields(c)
+	checkIndexReaders(c)
 	c.rule("ERR-invalidates", "an iterator that stored an error re-decides its validity before returning (invalid for good, accessors never run on missing state)", 3)
 	ea.runErrorInvalidates("ERR-invalidates", nil)
 	checkTraversalTable(c)
@@ -1067,7 +1069,99 @@ func checkEmptyValueLegal(c *Ctx) {
 			}
 		})
 	}
+	// a "defensive copy" made with append([]byte(nil), v...) is nil for an empty v: the empty value turns into "absent"
+	for _, fn := range l.SrcFuncs {
+		p := l.pkgPathOf(fn)
+		if p != l.ModPath && p != l.ModPath+"/fastnode" {
+			continue
+		}
+		allInstrs(fn, func(in ssa.Instruction) {
+			call, ok := in.(*ssa.Call)
+			if !ok {
+				return
+			}
+			bi, ok := call.Call.Value.(*ssa.Builtin)
+			if !ok || bi.Name() != "append" || len(call.Call.Args) != 2 {
+				return
+			}
+			dst := stripTrivial(call.Call.Args[0])
+			if cv, isCv := dst.(*ssa.Convert); isCv {
+				dst = stripTrivial(cv.X)
+			}
+			if k, isK := dst.(*ssa.Const); !isK || !k.IsNil() {
+				return
+			}
+			if what, isV := isUserValue(call.Call.Args[1]); isV {
+				n++
+				c.bad(R, l.fname(fn)+" copies "+what+" with append(nil, …)", l.ipos(in), "the copy of a user value is built by appending to a nil slice: an empty (legal) value comes out nil, and nil means `absent` to the callers (the entry vanishes from an iteration, a replay rejects it)")
+			}
+		})
+	}
 	if n == 0 {
-		c.ok(R, "no length-based presence test on user values", "-", "0 sites in the root package and fastnode")
+		c.ok(R, "no length-based presence test and no nil-for-empty copy of user values", "-", "0 sites in the root package and fastnode")
+	}
+}
+
+// checkCloneCopiesDecisionFields (C08, C07, C01): ImmutableTree.clone() is how the
+// working tree and lastSaved are produced after every commit / rollback; the fields
+// that decide which read path is taken must be carried over.
+func checkCloneCopiesDecisionFields(c *Ctx) {
+	l := c.L
+	const R = "FLOW-clone-fields"
+	c.rule(R, "ImmutableTree.clone carries over every field the read paths branch on", 4)
+	cl := l.Func("", "*ImmutableTree.clone")
+	it := l.NamedType("", "ImmutableTree")
+	if cl == nil || it == nil {
+		c.anchorMissing(R, "ImmutableTree.clone")
+		return
+	}
+	lits := structLiteralStores(cl, it)
+	if len(lits) != 1 {
+		c.bad(R, "clone builds one ImmutableTree", l.pos(cl.Pos()), "expected one literal")
+		return
+	}
+	for _, f := range []string{"root", "ndb", "version", "skipFastStorageUpgrade"} {
+		r := "<zero value>"
+		if v, ok := lits[0][f]; ok {
+			r = roleOf(l, v, "", 0)
+		}
+		c.decide(R, "clone copies "+f, l.pos(cl.Pos()), r == "recv."+f, f+": t."+f, "the clone's "+f+" is `"+r+"`: after the first commit or rollback the working tree is a clone, and every decision that reads this field (index on/off, version guards) is taken on the zero value")
+	}
+}
+
+
+// checkIndexReaders (C01, C07, C08): the fast index describes the latest SAVED
+// version.  It may be consulted only by the functions whose result is guarded
+// for that (ImmutableTree.Get under its version guard, MutableTree.GetVersioned)
+// and by the index maintenance itself; MutableTree has no Has / GetWithIndex /
+// GetByIndex of its own — it inherits ImmutableTree's — so an index shortcut in
+// any of those answers for the working tree from committed state.
+func checkIndexReaders(c *Ctx) {
+	l := c.L
+	const R = "OWN-index-readers"
+	c.rule(R, "the fast index is read only by the guarded point lookups and the index iterators", 2)
+	getFast := l.Func("", "*nodeDB.GetFastNode")
+	if getFast == nil {
+		c.anchorMissing(R, "nodeDB.GetFastNode")
+		return
+	}
+	allowed := map[string]bool{"(*iavl.ImmutableTree).Get": true, "(*iavl.MutableTree).GetVersioned": true}
+	n := 0
+	for _, fn := range l.SrcFuncs {
+		if l.pkgPathOf(fn) != l.ModPath {
+			continue
+		}
+		for _, in := range callsIn(fn, predStatic(getFast)) {
+			n++
+			top := fn
+			for top.Parent() != nil {
+				top = top.Parent()
+			}
+			c.decide(R, l.fname(top)+" reads the fast index", l.ipos(in), allowed[l.fname(top)], "guarded point lookup",
+				"the fast index is consulted from "+l.fname(top)+", which MutableTree inherits for its working tree: uncommitted inserts read as absent and uncommitted removals as present")
+		}
+	}
+	if n < 2 {
+		c.anchorMissing(R, "fewer than 2 readers of the fast index")
 	}
 }
